@@ -38,6 +38,8 @@ pub struct Violation {
     /// cases executed earlier on the same (fresh) thread, in order; needed to replay history-dependent failures
     pub prefix: Vec<Value>,
     pub count: u64,
+    /// a non-terminating case cannot be re-executed for confirmation (the re-execution would hang too)
+    pub no_gate: bool,
 }
 
 pub struct Ctx {
@@ -209,7 +211,14 @@ impl Ctx {
             case,
             prefix: PREFIX.with(|p| p.borrow().clone()),
             count: 0,
+            no_gate: false,
         });
+        e.count += 1;
+    }
+    /// a case that did not finish within the stall limit (recorded by the stall monitor)
+    pub fn violation_timeout(&self, site: &str, class: &str, detail: impl Into<String>, case: Value, prefix: Vec<Value>) {
+        let mut v = self.violations.lock().unwrap();
+        let e = v.entry((site.to_string(), class.to_string())).or_insert_with(|| Violation { site: site.to_string(), class: class.to_string(), detail: detail.into(), case, prefix, count: 0, no_gate: true });
         e.count += 1;
     }
     pub fn violations(&self) -> Vec<Violation> {
@@ -279,6 +288,9 @@ pub fn finish(ctx: &Arc<Ctx>, replay: Option<ReplayFn>) -> i32 {
     let mut unlisted = unlisted;
     if let Some(rf) = replay {
         for v in unlisted.iter_mut() {
+            if v.no_gate {
+                continue;
+            }
             let alone = replay_on_fresh_thread(ctx, rf, &[], &v.case);
             if alone.iter().any(|w| w.site == v.site && w.class == v.class) {
                 v.prefix.clear();
@@ -408,6 +420,42 @@ pub fn replay_on_fresh_thread(ctx: &Arc<Ctx>, rf: ReplayFn, prefix: &[Value], ca
     })
 }
 
+/// cases currently executing: thread -> (start, replay record, prefix length) — read by the stall monitor
+static RUNNING: Mutex<Option<std::collections::HashMap<std::thread::ThreadId, (Instant, Value)>>> = Mutex::new(None);
+
+fn running_set(v: Option<Value>) {
+    let id = std::thread::current().id();
+    let mut g = RUNNING.lock().unwrap();
+    let m = g.get_or_insert_with(Default::default);
+    match v {
+        Some(v) => {
+            m.insert(id, (Instant::now(), v));
+        }
+        None => {
+            m.remove(&id);
+        }
+    }
+}
+
+/// Start the stall monitor: a case that runs longer than `limit` is a non-terminating call (no check has
+/// a case that legitimately takes more than a few seconds). The monitor records it as a violation of the
+/// property (site "stalled case"), finishes the run and exits the process; the hung thread is abandoned.
+pub fn start_stall_monitor(ctx: &Arc<Ctx>, limit: std::time::Duration) {
+    let ctx = ctx.clone();
+    std::thread::spawn(move || loop {
+        std::thread::sleep(std::time::Duration::from_millis(500));
+        let stalled: Option<Value> = {
+            let g = RUNNING.lock().unwrap();
+            g.as_ref().and_then(|m| m.values().find(|(t, _)| t.elapsed() > limit).map(|(_, v)| v.clone()))
+        };
+        if let Some(case) = stalled {
+            ctx.violation_timeout("stalled case", "does-not-terminate", format!("a library call inside this case did not return within {} s: {}", limit.as_secs(), truncate(&case.to_string(), 400)), case, vec![]);
+            let code = finish(&ctx, None);
+            std::process::exit(code);
+        }
+    });
+}
+
 /// E2 driver: cases are executed in fixed-size chunks, each chunk sequentially on its own fresh
 /// thread (so hidden per-thread state in the library starts clean and the call history in front of
 /// every case is deterministic and recorded), chunks in parallel.
@@ -418,8 +466,11 @@ pub fn run_cases<C: serde::Serialize + Sync>(ctx: &Arc<Ctx>, cases: &[C], chunk:
             let h = s.spawn(|| {
                 PREFIX.with(|p| p.borrow_mut().clear());
                 for c in ch {
+                    let rec = serde_json::to_value(c).unwrap();
+                    running_set(Some(rec.clone()));
                     eval(ctx, c);
-                    PREFIX.with(|p| p.borrow_mut().push(serde_json::to_value(c).unwrap()));
+                    running_set(None);
+                    PREFIX.with(|p| p.borrow_mut().push(rec));
                 }
             });
             if h.join().is_err() {
@@ -476,7 +527,9 @@ impl Helper {
         let (dtx, drx) = std::sync::mpsc::channel::<()>();
         let handle = std::thread::spawn(move || {
             while let Ok(state) = rx.recv() {
+                running_set(Some(json!({"history": state})));
                 let _ = guard(|| visit(&state));
+                running_set(None);
                 if dtx.send(()).is_err() {
                     break;
                 }
